@@ -1,18 +1,24 @@
 """C01 – incremental appends give exactly the batch result (schedule independence)."""
+from ..oracles import analysis as oa
 from ..oracles import common as cm
 from ..oracles import framework as fw
 
 ID = "C01"
 LEAN_MODULE = "HexProps.C01"
 SCOPE = []
-ORACLE_RULE = "C01: see hx/oracles/framework.py (c01_case): random indicator spec (26 kinds + Amorph wrappers) x stream style x timeframe/fill x schedule on the real code"
+ORACLE_RULE = "C01: see hx/oracles/framework.py (c01_case): random indicator spec (26 kinds + Amorph wrappers) x stream style x timeframe/fill x schedule (appended chunks also as dicts / lists) on the real code; pattern / movement wrappers on dyadic candles with exact ties (hx/oracles/analysis.py: case_c16_wrapped), batch column vs live column"
 ASSUMPTIONS = ["TZ=UTC for this check"]
 PARTIAL = "proved for ALL 27 shipped indicator classes (CoveredTreeX: the 14 leaf classes incl. Amorph x 20 functions, and every composite - VWAP, STDEV, RSI, ATR, KC, STDEVTHRES, BBANDS, Supertrend, MACD, HMA, STOCH, TSI, ADX) with candle-attribute inputs: leaf classes on the base timeframe unconditionally (equality in PyM); all classes on the base or a collapsing timeframe with or without gap filling as 'the live run returns => the batch run returns the same candles' (C01_trees). and for indicator-valued inputs in the standard pattern: a dependent SMA/EMA/RMA/WMA/ROC member over a source member (SMA..ROC, MACD, KC, Supertrend, BBANDS, STOCH, TSI, ADX) of the same Hexital, chains of any length, any timeframe / fill (C01_chain_covered, C01_chain_any_length). Not proved (C01_FULL): dependent composites and sources without a component instance, members on different timeframes, period 1 for HMA/STOCH (index-0 fallback to a child's full calculate()), names that are not ordinary keys; those are covered by correspondence + search only"
 
 
 def oracle(ctx):
     n = (800 if ctx["tier"] == "quick" else 4000) * ctx["boost"]
-    return cm.run_cases(fw.c01_case, ctx["seed"], ID, n, {"size": 60 if ctx["tier"] == "quick" else 3 * 60})
+    return cm.merge_results(cm.run_cases(fw.c01_case, ctx["seed"], ID, n, {"size": 60 if ctx["tier"] == "quick" else 3 * 60}),
+                            # pattern / movement wrappers on candles with exact ties and threshold-sitting bodies: batch column = live column
+                            cm.run_cases(oa.case_c16_wrapped, ctx["seed"], ID + "w", n, {"size": 40, "prop": ID}))
 
 
-replay = fw.c01_replay
+def replay(w):
+    if w.get("scenario", {}).get("mode") in ("amorph", "hexital"):
+        return oa.replay(w)
+    return fw.c01_replay(w)
